@@ -151,6 +151,34 @@ def check(run: Run) -> None:
                 if not ok:
                     run.violation("R14.1", fi.module, fi.qualname, f"no branch for {k}", f"{fi.qualname} walks child nodes for an output format but has no branch for {k}: that content is dropped from the rendering while the projection reports lossy=false", line=fi.node.lineno)
 
+    # every single walk over child nodes that dispatches on its element's class is exhaustive on its own (a second, partial
+    # walk inside a converter - written out, or read in place from an extracted helper - drops the kinds it does not name)
+    for fq in sorted(res.reachable_from(roots)):
+        fi = res.func_by_fqn(fq)
+        if not (fi.module.name.endswith("mcp.eject") or fi.module.name.endswith("cli.main")):
+            continue
+        for w in [n for n in ast.walk(fi.node) if isinstance(n, (ast.For, ast.ListComp, ast.GeneratorExp, ast.SetComp, ast.DictComp))]:
+            gens = [w] if isinstance(w, ast.For) else w.generators
+            for g in gens:
+                if not (isinstance(g.iter, ast.Attribute) and g.iter.attr in ("children", "sections") and isinstance(g.target, ast.Name)):
+                    continue
+                var = g.target.id
+                scope = ast.Module(body=w.body, type_ignores=[]) if isinstance(w, ast.For) else w
+                kinds: set[str] = set()
+                for n in ast.walk(scope):
+                    if isinstance(n, ast.Call) and isinstance(n.func, ast.Name) and n.func.id == "isinstance" and len(n.args) == 2 and is_name(n.args[0], var):
+                        t = n.args[1]
+                        elts = t.elts if isinstance(t, ast.Tuple) else ([t.left, t.right] if isinstance(t, ast.BinOp) else [t])
+                        kinds |= {e.id for e in elts if isinstance(e, ast.Name)}
+                    if isinstance(n, ast.Call) and isinstance(n.func, ast.Name) and n.func.id == "hasattr" and len(n.args) == 2 and is_name(n.args[0], var) and isinstance(n.args[1], ast.Constant) and n.args[1].value == "children":
+                        kinds |= {"Block", "Section"}
+                if not (kinds & {"Assignment", "Block", "Section"}):
+                    continue  # no dispatch on the element here (e.g. handed to a converter as a whole)
+                missing = [k for k in CONTENT_NODE_KINDS if k not in kinds]
+                run.instance("R14.1", fi.module.loc(w), f"{fi.qualname}: walk over .{g.iter.attr} dispatches on {sorted(kinds)}", ok=not missing)
+                if missing:
+                    run.violation("R14.1", fi.module, fi.qualname, f"walk over {ast.unparse(g.iter)} without {', '.join(missing)}", f"{fi.qualname} renders the elements of `{ast.unparse(g.iter)}` but only those of kind {sorted(kinds)}: {', '.join(missing)} content below this point is dropped from the rendering while the projection reports lossy=false", line=getattr(w, "lineno", fi.node.lineno))
+
     # ---------------------------------------------------------------- R14.4
     for a, b in SIBLINGS:
         ca, cb = classes[a], classes[b]
